@@ -157,6 +157,7 @@ func TestSemanticsJSONB(t *testing.T) {
 func TestSemanticsArraysAndStrings(t *testing.T) {
 	runSem(t, testDB(), []semCase{
 		{`select (array[10,20,30])[1], (array[10,20,30])[0], (array[10,20,30])[4], (array[10,20,30])[2:3], (array[10,20,30])[:2], (array[10,20,30])[5:6]`, `10 | null | null | [20,30] | [10,20] | []`},
+		{`select array[1,2] @> array[2,3], array[1,2] && array[2,3], array[1,2,3] @> array[3,1,1]`, `false | true | true`},
 		{`select array[1,2] @> array[2], array[1,2] @> array[3], array[1,2] @> array[]::int[], array[1,null] @> array[null]::int[], array[1,2] && array[2,3], array[1,2] && array[3], array[1] <@ array[1,2]`, `true | false | true | false | true | false | true`},
 		{`select array[1,2] operator (pg_catalog.@>) array[1]::int4[], array[1,2] operator (pg_catalog.&&) array[2]`, `true | true`},
 		{`select array[1,2] || 3, 0 || array[1], array[1] || array[2], array[1,2] || null, null || array[1], array[1,2] || null::int`, `[1,2,3] | [0,1] | [1,2] | [1,2] | [1] | [1,2,null]`},
@@ -226,6 +227,8 @@ func TestSemanticsFromAndCTEs(t *testing.T) {
 	runSem(t, testDB(), []semCase{
 		{`with recursive t(n) as (select 1 union all select n + 1 from t where n < 5) select sum(n), count(*) from t`, `15 | 5`},
 		{`with recursive t(n) as (select 1 union select 1 from t) select count(*) from t`, `1`},
+		{`with recursive t(n) as (select x from (values (1), (1)) v(x) union all select n + 1 from t where n < 2) select count(*) from t`, `4`},
+		{`with recursive t(n) as (select x from (values (1), (1)) v(x) union select n + 1 from t where n < 2) select count(*) from t`, `2`},
 		{`with recursive t(n) as (select 1 union all select n + 1 from t where n < 3), u as (select n * 2 as m from t) select m from u order by m`, `2 ; 4 ; 6`},
 		{`with t(n) as (select 1 union all select n + 1 from t where n < 3) select * from t`, `ERR:binding`}, // not RECURSIVE: t unknown inside
 		{`with a as (select 1 as x), b as (select x + 1 as y from a) select a.x, b.y from a, b`, `1 | 2`},
@@ -402,6 +405,37 @@ func TestPathFunctions(t *testing.T) {
 		}
 		if strings.Join(ns, ",") != c.nodes || strings.Join(es, ",") != c.edges {
 			t.Errorf("root %s edges [%s]: nodes %v edges %v, want %s / %s", c.root, c.ids, ns, es, c.nodes, c.edges)
+		}
+	}
+}
+
+// the walk prefers the neighbouring ordinal in walking direction when several unused edges touch
+// the current node (schema_up.sql: order by case when ordinality = last + direction …)
+func TestOrderedEdgesToPathTieBreak(t *testing.T) {
+	g := gmodel.Graph{
+		Nodes: []gmodel.Node{{ID: 1}, {ID: 2}, {ID: 3}},
+		Edges: []gmodel.Edge{{ID: 10, Start: 1, End: 2, Kind: "R"}, {ID: 11, Start: 2, End: 3, Kind: "R"}, {ID: 14, Start: 3, End: 2, Kind: "S"}},
+	}
+	db := NewDB(g, map[string]int16{"R": 1, "S": 2}, 0)
+	edgeArr := func(ids string) string {
+		return `(select array_agg((_edge.id, _edge.start_id, _edge.end_id, _edge.kind_id, _edge.properties)::edgecomposite order by _path.ordinality) from unnest(array [` + ids + `]::int8[]) with ordinality as _path(id, ordinality) join edge _edge on _edge.id = _path.id)`
+	}
+	for _, c := range []struct{ ids, want string }{
+		{"11, 14, 10", "10,14,11"}, // backwards from the last edge: 10, then 14 (ordinal 2 = 3-1), then 11
+		{"10, 11, 14", "10,11,14"},
+		{"10, 14, 11", "10,14,11"},
+	} {
+		res, out := db.Query(`select ordered_edges_to_path((n0.id, n0.kind_ids, n0.properties)::nodecomposite, `+edgeArr(c.ids)+`, array[]::nodecomposite[]) from node n0 where n0.id = 1`, nil)
+		if !out.OK {
+			t.Fatalf("%s: %s", c.ids, out)
+		}
+		p := res.Rows[0][0].(gmodel.PathVal)
+		var es []string
+		for _, e := range p.Edges {
+			es = append(es, gmodel.Canon(e.ID))
+		}
+		if strings.Join(es, ",") != c.want {
+			t.Errorf("edges [%s]: got %v want %s", c.ids, es, c.want)
 		}
 	}
 }
